@@ -14,3 +14,67 @@ package ast
 //@ lemma charAndCountArray_Less_total C08: forall a charAndCountArray, i int, j int ::
 //@     0 <= i && i < len(a) && 0 <= j && j < len(a) && !a.Less(i, j) && !a.Less(j, i) ==> a[i].count == a[j].count && a[i].index == a[j].index
 
+
+// ----------------------------------------------------------------------------------------------
+// C02: symbol link chains. Imports are bound to exports (and merged declarations unified) by linking one
+// symbol to another; every later phase (renaming, printing, cross-chunk wiring) identifies a symbol with
+// the END of its chain, FollowSymbols(ref). FollowSymbols also compresses the path it walks, so the claim
+// "a symbol's canonical representative never changes behind the linker's back" is a statement about a
+// heap-mutating recursive function. Specification (union-find `find`):
+//   symRoot(ref)   - the end of ref's chain in a given heap (recursive spec function)
+//   symRank(q)     - ghost well-founded measure witnessing that chains are acyclic: every link goes to a
+//                    strictly smaller rank (precondition; established where links are created)
+// Contract: the result is the old root and is a root; the only writes are to Symbol.Link, and EVERY
+// symbol's new link is either its old link or its old root (pointwise) - so by induction on the rank
+// every symbol keeps its root; roots stay roots; the rank invariant is preserved.
+//@ spec func symPtr(symbols SymbolMap, ref Ref) *Symbol = elemptr(symbols.SymbolsForSource[ref.SourceIndex], int(ref.InnerIndex))
+//@ constglobal ast.InvalidRef
+//@ spec func isInvalidRef(ref Ref) bool = ref == InvalidRef
+//@ spec rec func symRoot(symbols SymbolMap, ref Ref) Ref =
+//@     isInvalidRef(symPtr(symbols, ref).Link) ? ref : symRoot(symbols, symPtr(symbols, ref).Link)
+//@ spec func symRank(q *Symbol) int
+//@ spec func ranked(symbols SymbolMap) bool =
+//@     forall q *Symbol :: !isInvalidRef(q.Link) ==> symRank(symPtr(symbols, q.Link)) < symRank(q)
+
+//@ func FollowSymbols
+//@   arith int
+//@   prop C02
+//@   opt transparent ranked
+//@   opt unfold symRoot
+//@   modifies Symbol.Link
+//@   requires ranked(symbols)
+//@   ensures result-is-old-root: result == old(symRoot(symbols, ref))
+//@   ensures result-is-a-root: isInvalidRef(symPtr(symbols, result).Link)
+//@   ensures rank-not-increased: symRank(symPtr(symbols, result)) <= symRank(symPtr(symbols, ref))
+//@   ensures links-only-to-old-roots: forall q *Symbol :: q.Link == old(q.Link) || (!isInvalidRef(old(q.Link)) && q.Link == old(symRoot(symbols, q.Link)))
+//@   ensures roots-stay-roots: forall q *Symbol :: isInvalidRef(old(q.Link)) ==> isInvalidRef(q.Link)
+//@   ensures still-ranked: ranked(symbols)
+
+// MergeContentsWith: the surviving symbol inherits the pins of the merged one (C15: a name that must not be
+// renamed, or must be capitalised for JSX, stays so after two symbols are unified).
+//@ func (*Symbol).MergeContentsWith
+//@   arith int
+//@   nooverflow
+//@   prop C02 C15
+//@   modifies Symbol.UseCountEstimate, Symbol.Flags, Symbol.OriginalName
+//@   requires newSymbol != nil && oldSymbol != nil
+//@   ensures pin-inherited: old(oldSymbol.Flags.Has(MustNotBeRenamed)) ==> newSymbol.Flags.Has(MustNotBeRenamed)
+//@   ensures pin-kept: old(newSymbol.Flags.Has(MustNotBeRenamed)) ==> newSymbol.Flags.Has(MustNotBeRenamed) && newSymbol.OriginalName == old(newSymbol.OriginalName)
+//@   ensures pinned-name: old(oldSymbol.Flags.Has(MustNotBeRenamed)) && !old(newSymbol.Flags.Has(MustNotBeRenamed)) ==> newSymbol.OriginalName == old(oldSymbol.OriginalName)
+//@   ensures jsx-inherited: old(oldSymbol.Flags.Has(MustStartWithCapitalLetterForJSX)) || old(newSymbol.Flags.Has(MustStartWithCapitalLetterForJSX)) ==> newSymbol.Flags.Has(MustStartWithCapitalLetterForJSX)
+//@   ensures no-pin-invented: newSymbol.Flags.Has(MustNotBeRenamed) ==> old(newSymbol.Flags.Has(MustNotBeRenamed)) || old(oldSymbol.Flags.Has(MustNotBeRenamed))
+
+// MergeSymbols (union): every link that changes now points at a symbol of `new`'s old class, the result is in
+// that class, roots other than the old root of `old` stay roots, and nothing outside the two classes moves.
+//@ func MergeSymbols
+//@   arith int
+//@   prop C02
+//@   opt transparent ranked
+//@   opt unfold symRoot
+//@   modifies Symbol.Link, Symbol.UseCountEstimate, Symbol.Flags, Symbol.OriginalName
+//@   requires ranked(symbols)
+//@   ensures result-in-new-class: old(symRoot(symbols, now(result))) == old(symRoot(symbols, new))
+//@   ensures links-only-into-new-class: forall q *Symbol :: q.Link == old(q.Link) || old(symRoot(symbols, now(q.Link))) == old(symRoot(symbols, new))
+//@   ensures only-old-root-linked: forall q *Symbol :: isInvalidRef(old(q.Link)) && !isInvalidRef(q.Link) ==> q == old(symPtr(symbols, symRoot(symbols, old)))
+//@   ensures only-two-classes-touched: forall q *Symbol :: !isInvalidRef(old(q.Link)) && q.Link != old(q.Link) ==>
+//@       old(symRoot(symbols, q.Link)) == old(symRoot(symbols, old)) || old(symRoot(symbols, q.Link)) == old(symRoot(symbols, new))
